@@ -219,6 +219,11 @@ func (s *fileSeedSegment) clone(dst, src *os.File, srcOffset, srcLength, dstOffs
 	srcAlignStart := (srcOffset/blocksize + 1) * blocksize
 	srcAlignEnd := (srcOffset + srcLength) / blocksize * blocksize
 	dstAlignStart := (dstOffset/blocksize + 1) * blocksize
+	// No complete block inside the range: nothing to clone. The length below would
+	// wrap around, or be 0 which the kernel takes for "up to the end of the file".
+	if srcAlignStart >= srcAlignEnd {
+		return s.copy(dst, src, srcOffset, srcLength, dstOffset)
+	}
 	alignLength := srcAlignEnd - srcAlignStart
 	dstAlignEnd := dstAlignStart + alignLength
 
